@@ -173,7 +173,7 @@ def run(ctx):
         ("EvalLzDict", dict(module="EvalLzDict", workers=1, timeout=300)),
         ("GenLzma2", dict(module="MCLzma2", cfg="GenLzma2.cfg" if quick else "GenLzma2T.cfg", workers=1, timeout=900)),
     ]
-    broken = [("MCLz", "MCLzVar_dist_off_by_one.cfg", {}), ("MCLz", "MCLzVar_no_wrap_correction.cfg", {}),
+    broken = [("MCLz", "MCLzVar_dist_off_by_one.cfg", {}), ("MCLz", "MCLzVar_no_wrap_correction.cfg", {}), ("MCLz", "MCLzVar_reset_keeps_wrapped.cfg", {}),
               ("MCLzma2", "MCLzma2Var_no_need_props.cfg", {}), ("MCLzma2", "MCLzma2Var_no_need_dict.cfg", {}),
               ("MCXzStreamDec", "MCXzStreamDecVar_no_flags_compare.cfg", env), ("MCXzStreamDec", "MCXzStreamDecVar_index_sums_only.cfg", env),
               ("MCXzStreamDec", "MCXzStreamDecVar_size_valid_misuse.cfg", env)]
